@@ -324,6 +324,24 @@ func init() {
 
 	// --- fmt / errors -------------------------------------------------------
 	m["fmt.Sprintf"] = func(ex *Exec, fr *frame, a []Value) Value { return ex.sprintf(fr, a[0].(*Str), a[1].(*Slice)) }
+	// Fprintf / Fprint / Fprintln: format, then one Write on the destination
+	fprint := func(ex *Exec, fr *frame, w Value, s *Str) Value {
+		arr := &ArrayV{E: make([]Value, len(s.B))}
+		for i, b := range s.B {
+			arr.E[i] = b
+		}
+		obj := ex.newObject(nil, arr, "fmt.Fprint buffer")
+		return ex.invoke(fr, w.(*Iface), "Write", &Slice{Arr: obj, Len: len(arr.E), Cap: len(arr.E)})
+	}
+	m["fmt.Fprintf"] = func(ex *Exec, fr *frame, a []Value) Value {
+		return fprint(ex, fr, a[0], ex.sprintf(fr, a[1].(*Str), a[2].(*Slice)))
+	}
+	m["fmt.Fprint"] = func(ex *Exec, fr *frame, a []Value) Value {
+		return fprint(ex, fr, a[0], ex.sprintArgs(fr, a[1].(*Slice), false))
+	}
+	m["fmt.Fprintln"] = func(ex *Exec, fr *frame, a []Value) Value {
+		return fprint(ex, fr, a[0], ex.sprintArgs(fr, a[1].(*Slice), true))
+	}
 	m["fmt.Sprint"] = func(ex *Exec, fr *frame, a []Value) Value { return ex.sprintArgs(fr, a[0].(*Slice), false) }
 	m["fmt.Sprintln"] = func(ex *Exec, fr *frame, a []Value) Value { return ex.sprintArgs(fr, a[0].(*Slice), true) }
 	m["fmt.Errorf"] = func(ex *Exec, fr *frame, a []Value) Value {
@@ -540,7 +558,7 @@ func (ex *Exec) fmtArg(fr *frame, v Value, verb byte) *Str {
 func (ex *Exec) sprintf(fr *frame, format *Str, args *Slice) *Str {
 	f, ok := format.Concrete()
 	if !ok {
-		return ex.freshText("sprintf", false).(*Str)
+		return ex.sprintfSym(fr, format, args)
 	}
 	var operands []Value
 	for i := 0; i < args.Len; i++ {
@@ -558,6 +576,7 @@ func (ex *Exec) sprintf(fr *frame, format *Str, args *Slice) *Str {
 			j++
 		}
 		if j >= len(f) {
+			out.B = append(out.B, ex.mkStr("%!(NOVERB)").B...)
 			break
 		}
 		verb := f[j]
@@ -572,6 +591,60 @@ func (ex *Exec) sprintf(fr *frame, format *Str, args *Slice) *Str {
 		}
 		out.B = append(out.B, ex.fmtArg(fr, operands[k], verb).B...)
 		k++
+	}
+	return out
+}
+
+// sprintfSym: a format string with symbolic bytes (caller data used as a format).
+// Every symbolic byte is split on being '%'; without any '%' the output is the
+// format itself. After a '%' the simple cases are followed exactly as fmt does
+// with no operand left: "%%" prints '%', "%c" prints "%!c(MISSING)", a trailing
+// '%' prints "%!(NOVERB)". Flags, widths and remaining operands after a symbolic
+// '%' are not modelled (the path is abandoned as unsupported).
+func (ex *Exec) sprintfSym(fr *frame, format *Str, args *Slice) *Str {
+	isByte := func(t *Term, c byte) bool {
+		if t.Op == OConst {
+			return byte(t.Val) == c
+		}
+		return ex.X.Branch(ex.B.Eq(t, ex.B.Const(8, uint64(c))))
+	}
+	out := &Str{}
+	b := format.B
+	for i := 0; i < len(b); i++ {
+		if !isByte(b[i], '%') {
+			out.B = append(out.B, b[i])
+			continue
+		}
+		if i+1 >= len(b) {
+			out.B = append(out.B, ex.mkStr("%!(NOVERB)").B...)
+			break
+		}
+		v := b[i+1]
+		i++
+		if isByte(v, '%') {
+			out.B = append(out.B, ex.B.Const(8, '%'))
+			continue
+		}
+		if args.Len > 0 {
+			ex.unsupported(fr, "fmt verb in a symbolic format string with operands")
+		}
+		if v.Op == OConst {
+			if strings.IndexByte("+-# 0123456789.*[", byte(v.Val)) >= 0 || v.Val >= 0x80 {
+				ex.unsupported(fr, "fmt flags after '%' in a symbolic format string")
+			}
+		} else {
+			var special []*Term
+			for _, c := range []byte("+-# 0123456789.*[") {
+				special = append(special, ex.B.Eq(v, ex.B.Const(8, uint64(c))))
+			}
+			special = append(special, ex.B.Not(ex.B.Bin(OUlt, v, ex.B.Const(8, 0x80))))
+			if ex.X.Branch(ex.B.Or(special...)) {
+				ex.unsupported(fr, "fmt flags after '%' in a symbolic format string")
+			}
+		}
+		out.B = append(out.B, ex.mkStr("%!").B...)
+		out.B = append(out.B, v)
+		out.B = append(out.B, ex.mkStr("(MISSING)").B...)
 	}
 	return out
 }
